@@ -28,7 +28,7 @@ c_QueryOn == FALSE
 c_J == 3
 c_EmitOps == {1, 2}
 c_EmitMod == 60
-c_EmitRes == 2
+c_EmitRes == 0
 c_EmitSmall == 0
 c_EmitFilter == "all"
 ====
